@@ -141,6 +141,12 @@ func readHeader(reader io.ReaderAt) (*bucketToOffset, *indexmeta.Meta, int64, er
 	if err != nil {
 		return nil, nil, 0, fmt.Errorf("failed to read header size: %w", err)
 	}
+	// The size comes from the file: refuse what no writer can produce before allocating it
+	// (magic, version, maximal metadata, prefix count, one entry per 16-bit prefix).
+	const maxHeaderSize = 8 + 8 + (1 + indexmeta.MaxNumKVs*(1+indexmeta.MaxKeySize+1+indexmeta.MaxValueSize)) + 8 + (math.MaxUint16+1)*(2+8)
+	if headerSize > maxHeaderSize {
+		return nil, nil, 0, fmt.Errorf("header size %d exceeds the maximum %d", headerSize, maxHeaderSize)
+	}
 	// read header bytes:
 	headerBuf := make([]byte, headerSize)
 	if _, err := reader.ReadAt(headerBuf, 4); err != nil {
